@@ -695,6 +695,8 @@ type c15mon struct {
 	pool   []*c15base
 	big    *c15base
 	nviolC int
+
+	pendingCap []func()
 }
 
 func (m *c15mon) armCPU() {
@@ -796,11 +798,17 @@ func (m *c15mon) chunkCheck(cs *c15case, where string, c rac.Chunk, prevEnd int6
 		}
 		return true
 	}
+	fd := ""
+	if c.TTag == 0xFD {
+		// An 0xFD element is a Codec Element attribute, not a node; name the
+		// narrower kind of failure.
+		fd = ":codec-element-as-chunk"
+	}
 	if c.CPrimary[0] > c.CPrimary[1] {
-		m.violate(cs, "rac-hostile:cprimary:low>high", fmt.Sprintf("%s: chunk with CPrimary %v (low > high), DRange %v", where, c.CPrimary, c.DRange))
+		m.violate(cs, "rac-hostile:cprimary:low>high"+fd, fmt.Sprintf("%s: chunk with CPrimary %v (low > high), DRange %v", where, c.CPrimary, c.DRange))
 		ok = false
 	} else if c.CPrimary[0] < 0 || c.CPrimary[1] > cs.csize {
-		m.violate(cs, "rac-hostile:cprimary:out-of-file", fmt.Sprintf("%s: chunk with CPrimary %v outside [0, %d], DRange %v", where, c.CPrimary, cs.csize, c.DRange))
+		m.violate(cs, "rac-hostile:cprimary:out-of-file"+fd, fmt.Sprintf("%s: chunk with CPrimary %v outside [0, %d], DRange %v", where, c.CPrimary, cs.csize, c.DRange))
 		ok = false
 	}
 	if c.DRange[0] >= c.DRange[1] {
@@ -820,6 +828,12 @@ func (m *c15mon) chunkCheck(cs *c15case, where string, c rac.Chunk, prevEnd int6
 }
 
 func (m *c15mon) capViolation(cs *c15case, where string, rs *c15rs) {
+	// Deferred to the end of run(): the diagnosis allocates and must not be
+	// charged to the reader by memCheck.
+	m.pendingCap = append(m.pendingCap, func() { m.capViolationNow(cs, where, rs) })
+}
+
+func (m *c15mon) capViolationNow(cs *c15case, where string, rs *c15rs) {
 	cls := c15diag(cs.data, cs.csize)
 	m.violate(cs, "rac-hostile:unbounded-walk:"+cls,
 		fmt.Sprintf("%s: more than %d Read/Seek calls (cap 1000+64*(S/16)^2, S=%d) on a %d-byte file: work not proportional to the file [%s]",
@@ -865,9 +879,6 @@ func (m *c15mon) run(cs *c15case) c15res {
 		ds, derr := cr.DecompressedSize()
 		if derr == nil {
 			dsize = ds
-			if ds < 0 {
-				m.violate(cs, "rac-hostile:decompressed-size:negative", fmt.Sprintf("DecompressedSize() = %d", ds))
-			}
 		}
 		prevEnd := int64(-1)
 		var err error
@@ -1044,6 +1055,12 @@ func (m *c15mon) run(cs *c15case) c15res {
 
 func (m *c15mon) memCheck(cs *c15case, ms0, ms1 *runtime.MemStats) {
 	runtime.ReadMemStats(ms1)
+	defer func() {
+		for _, f := range m.pendingCap {
+			f()
+		}
+		m.pendingCap = m.pendingCap[:0]
+	}()
 	delta := int64(ms1.TotalAlloc - ms0.TotalAlloc)
 	m.rc.Max("max_alloc_bytes_one_case", delta)
 	if delta <= c15allocBig {
@@ -1106,7 +1123,7 @@ func (m *c15mon) decode(cs *c15case, rs *c15rs, sink *c15sink, g *rand.Rand) err
 func c15pick(r *rand.Rand, vals ...int64) int64 { return vals[r.Intn(len(vals))] }
 
 var c15fields = []string{"magic", "arity1", "arity2", "arity-both", "checksum", "reserved", "ttag", "dptr", "dptrmax",
-	"codec", "cptr", "cptr", "clen", "stag", "cptrmax", "version", "dptr", "ttag"}
+	"codec", "cptr", "cptr", "clen", "stag", "cptrmax", "version", "dptr", "ttag", "to-codec-element"}
 
 // c15mutate applies one field mutation to node n of data; it returns the
 // field name ("" when nothing changed).
@@ -1140,6 +1157,14 @@ func c15mutate(r *rand.Rand, data []byte, b *c15base, ni int) string {
 		data[o+int64(8*j+6)] = byte(1 + r.Intn(255))
 	case "ttag":
 		data[o+int64(8*i+7)] = byte(c15pick(r, 0xFE, 0xFD, 0xFF, 0xC0, 0xFC, 0xBF, 0, int64(i), int64(r.Intn(a)), int64(r.Intn(256))))
+	case "to-codec-element":
+		// Element i becomes a Codec Element: TTag 0xFD and 7 bytes of codec
+		// name where CPtr|CLen would be.
+		data[o+int64(8*i+7)] = 0xFD
+		p := o + int64(8*a+8+8*i)
+		for k := int64(0); k < 7; k++ {
+			data[p+k] = byte(r.Intn(256))
+		}
 	case "dptr", "dptrmax":
 		j := 1 + r.Intn(a)
 		if f == "dptrmax" {
@@ -1211,16 +1236,14 @@ func (m *c15mon) famMutate(r *rand.Rand) *c15case {
 	var labels []string
 	touchedNodes := map[int]bool{}
 	wlo, whi := int64(1<<62), int64(-1)
+	lastNi := -1
 	for k := 0; k < nm; k++ {
 		ni := 0
 		if len(b.nodes) > 1 && r.Intn(5) >= 2 {
 			ni = 1 + r.Intn(len(b.nodes)-1)
 		}
-		if k > 0 && r.Intn(2) == 0 {
-			for j := range touchedNodes {
-				ni = j
-				break
-			}
+		if k > 0 && lastNi >= 0 && r.Intn(2) == 0 {
+			ni = lastNi
 		}
 		f := ""
 		for try := 0; try < 4 && f == ""; try++ {
@@ -1230,6 +1253,7 @@ func (m *c15mon) famMutate(r *rand.Rand) *c15case {
 			continue
 		}
 		touchedNodes[ni] = true
+		lastNi = ni
 		kind := "root"
 		if ni != 0 {
 			kind = "branch"
@@ -1592,7 +1616,7 @@ func (m *c15mon) famDAG(r *rand.Rand) *c15case {
 		if !m.rc.Thorough() && fsz > 2200 {
 			continue
 		}
-		if fsz > 9000 {
+		if fsz > 3600 {
 			continue
 		}
 		cap := float64(c15cap(fsz, int(fsz)))
@@ -1700,7 +1724,11 @@ func (m *c15mon) famRandNodes(r *rand.Rand) *c15case {
 			switch r.Intn(14) {
 			case 0:
 				e.ttag = 0xFD
-				e.dsize = 0
+				if r.Intn(3) != 0 {
+					e.dsize = 0
+				} else if e.dsize != 0 {
+					feat["fd-nonempty"] = true
+				}
 				e.cptr = c15pick(r, 0, rac.MaxSize, int64(r.Intn(1<<30)))
 				feat["fd"] = true
 			case 1:
